@@ -133,6 +133,15 @@ CHECKS = {
             'uninterrupted run.',
             'Steps depend only on persisted state; checkpoints at state entry and right after construction; bounds M and '
             'families as reported in the evidence.', 'DESIGN.md 3 C08'),
+    'C18': (SCHED, SCHED_TECH,
+            'Scenarios of 1-3 concurrently stepping processes (plain, launching a child from a step, executing a child '
+            're-entrantly inside a step through the nested run_until_complete) with async steps on environment gates, '
+            'scheduled callbacks and every lifecycle/pause/play/output hook overridden sample Process.current(); so do an '
+            'observer task that is no process and the harness between callbacks. Every order and placement of the gate '
+            'completions and resumes (plus one pause+play) is explored; every sample must be the executing process, or '
+            'None outside of any process.',
+            'Trusts VLoop, whose re-entrant run_until_complete sets the current task aside around each callback like '
+            'nest_asyncio does.', 'DESIGN.md 3 C18'),
     'C19': ('input-enumerator',
             'bounded-exhaustive enumeration of Savable class shapes x member kinds x future states x loader configurations '
             'on the real save/load code',
@@ -142,6 +151,17 @@ CHECKS = {
             'identity, untouched parent classes, use of the recorded loader and ValueError for unknown identifiers are '
             'checked.',
             'Member values are the small fixed ones of the generated classes.', 'DESIGN.md 3 C19'),
+    'C20': (SCHED,
+            'exhaustive enumeration of future chains x outcomes x completion orders, with every placement of the '
+            'completions between loop callbacks explored by the prefix-replay DFS, on the real adapters',
+            'Chains of futures of depth <=3 (thorough 4) where each level ends with a value, an exception, a cancellation '
+            'or the next level are pushed through unwrap_kiwi_future (every completion order and attachment point), '
+            'plum_to_kiwi_future+unwrap and Process._schedule_rpc on the deterministic loop (every order and placement), '
+            'futures.create_task over coroutines awaiting 0-2 gates, and every CancellableAction operation sequence of '
+            'length <=3; the adapter must end with exactly the innermost outcome, once, and the wrapped function is '
+            'called at most once.',
+            'A callback delivered by a communicator thread is modelled as a loop callback at an arbitrary queue position; '
+            'OS-thread races inside kiwipy/concurrent.futures are outside the explored space.', 'DESIGN.md 3 C20'),
 }
 
 ALL = [f'C{i:02d}' for i in range(1, 21)]
